@@ -34,11 +34,17 @@ open Generated.Negotiate
 inductive TKind | mem | pipe | sse | stateful | stateless
 deriving DecidableEq, Repr
 
+/-- Where the SDK's own `LoggingTransport` sits in the server's transport stack: not at all, outermost
+(`LoggingTransport{wrapper{t}}`), or inside the user's wrapper (`wrapper{LoggingTransport{t}}`). -/
+inductive LogPos | none | outer | inner
+deriving DecidableEq, Repr
+
 structure Setup where
   kind : TKind
   subset : Option (List String)   -- versions a wrapping transport admits (`none`: no wrapper)
   json : Bool := false
   store : Bool := false
+  logging : LogPos := .none
 
 inductive Outcome
   | error
@@ -65,6 +71,55 @@ def transportSupports (S : Setup) (v : String) : Bool :=
 
 /-- `filterSupportedVersions(t)` = `ServerSession.supportedVersions`. -/
 def advertised (S : Setup) : List String := supportedProtocolVersions.filter (transportSupports S)
+
+/-! ### the transport stack as the code sees it
+
+`filterSupportedVersions(t)` asks the OUTERMOST transport value `t.(ProtocolVersionSupporter)`.  A
+transport that does not implement the interface counts as serving everything; a wrapper serves what
+it says.  `transportSupports` above is what the stack can REALLY serve (a `LoggingTransport` adds
+nothing and removes nothing); `stackSupports` is what `Server.Connect` reads off the stack, layer by
+layer.  They agree iff every wrapper forwards the question (`Props.stack_eq_transport`): the harness's
+wrapper does, `LoggingTransport` does since the F46 repair (`loggingTransportForwards`, regenerated). -/
+
+/-- `t.(ProtocolVersionSupporter)`: `none` = the interface is not implemented. -/
+abbrev Pvs := Option (String → Bool)
+
+/-- How `filterSupportedVersions` reads a `Pvs`. -/
+def Pvs.supports : Pvs → String → Bool
+  | none, _ => true
+  | some f, v => f v
+
+def kindPvs : TKind → Pvs
+  | .mem => none
+  | .pipe => none
+  | .sse => some sseSupportsProtocolVersion
+  | .stateful => some (streamableSupportsProtocolVersion false)
+  | .stateless => some (streamableSupportsProtocolVersion true)
+
+/-- `LoggingTransport{inner}`: with the method (F46 repair) it answers what the inner transport answers,
+`true` when that one has no opinion; without the method it does not implement the interface. -/
+def loggingPvsWith (forwards : Bool) (inner : Pvs) : Pvs :=
+  if forwards then some (inner.supports) else none
+
+def loggingPvs (inner : Pvs) : Pvs := loggingPvsWith loggingTransportForwards inner
+
+/-- A forwarding user wrapper admitting `l` (the harness's `ngWrap`): inner answer ∧ membership. -/
+def maskPvs (l : List String) (inner : Pvs) : Pvs := some fun v => inner.supports v && l.contains v
+
+def stackPvs (S : Setup) : Pvs :=
+  match S.logging, S.subset with
+  | .none, none => kindPvs S.kind
+  | .none, some l => maskPvs l (kindPvs S.kind)
+  | .outer, none => loggingPvs (kindPvs S.kind)
+  | .outer, some l => loggingPvs (maskPvs l (kindPvs S.kind))
+  | .inner, none => loggingPvs (kindPvs S.kind)
+  | .inner, some l => maskPvs l (loggingPvs (kindPvs S.kind))
+
+/-- What `Server.Connect` reads off the stack for version `v`. -/
+def stackSupports (S : Setup) (v : String) : Bool := (stackPvs S).supports v
+
+/-- `filterSupportedVersions(t)` on the stack. -/
+def advertisedStack (S : Setup) : List String := supportedProtocolVersions.filter (stackSupports S)
 
 inductive Disc
   | ok (v : String)            -- discover succeeded with this negotiated version
